@@ -62,6 +62,10 @@ func (s *scripted) Read(p []byte) (int, error) {
 var tape *scripted
 var osReader io.Reader
 
+// caseID is the label of the case being run; a label ending in '+' asks families that build shared objects
+// (word lists) to use them for other recipes first, as a program sharing one list would
+var caseID string
+
 func install(src []chunk) {
 	tape = &scripted{chunks: src}
 	rand.Reader = tape
@@ -247,6 +251,7 @@ func main() {
 		if line != "" {
 			t := &toks{rest: strings.Split(line, " ")}
 			id := t.next()
+			caseID = id
 			fam := t.next()
 			f, ok := families[fam]
 			var res string
